@@ -13,7 +13,7 @@ import itertools
 import json
 
 import httpx
-from graphql import NoUnusedFragmentsRule, get_named_type, is_abstract_type, is_object_type, parse, specified_rules, validate
+from graphql import NoUnusedFragmentsRule, get_named_type, is_abstract_type, is_object_type, is_union_type, parse, specified_rules, validate
 
 from mc import clients, corpus, corpus2, features, genpkg, pool, refexec
 from mc.explorer import Explorer
@@ -39,21 +39,27 @@ def demanded_spreads(schema, static_t, sel_sets, frags):
     and the selection set does not split T into per-type classes (all direct selections are fields or such spreads)."""
     out = []
     # the scope of a position: its selection sets plus those of fragments / inline fragments ON THE SAME TYPE reached from them
-    # (a fragment that is unpacked into the class still "directly spreads" the fragments of its own selection set)
-    scope, todo, seen = [], list(sel_sets), set()
+    # (a fragment that is unpacked into the class still "directly spreads" the fragments of its own selection set); an inline
+    # fragment on a SUPER-type of the position (`user { ... on Node { ...F } }`) opens a selection set evaluated for that super-type
+    scope, todo, seen = [], [(ss, static_t.name) for ss in sel_sets], set()
     while todo:
-        ss = todo.pop(0)
+        ss, tname = todo.pop(0)
         if id(ss) in seen:
             continue
         seen.add(id(ss))
-        scope.append(ss)
+        scope.append((ss, tname))
         for s in ss.selections:
-            if s.kind == "inline_fragment" and (s.type_condition is None or s.type_condition.name.value == static_t.name):
-                todo.append(s.selection_set)
-            elif s.kind == "fragment_spread" and s.name.value in frags and frags[s.name.value].type_condition.name.value == static_t.name and not s.directives:
-                todo.append(frags[s.name.value].selection_set)
-    for ss in scope:
-        direct = [x for x in ss.selections if not (x.kind == "inline_fragment" and (x.type_condition is None or x.type_condition.name.value == static_t.name))]
+            if s.kind == "inline_fragment":
+                tc = s.type_condition.name.value if s.type_condition is not None else tname
+                tct = schema.get_type(tc)
+                if tc == tname:
+                    todo.append((s.selection_set, tname))
+                elif not s.directives and tct is not None and is_abstract_type(tct) and schema.is_sub_type(tct, static_t):
+                    todo.append((s.selection_set, tc))
+            elif s.kind == "fragment_spread" and s.name.value in frags and frags[s.name.value].type_condition.name.value == tname and not s.directives:
+                todo.append((frags[s.name.value].selection_set, tname))
+    for ss, tname in scope:
+        direct = [x for x in ss.selections if not (x.kind == "inline_fragment" and (x.type_condition is None or x.type_condition.name.value == tname))]
         pure = True
         names = []
         for s in direct:
@@ -61,11 +67,11 @@ def demanded_spreads(schema, static_t, sel_sets, frags):
                 continue
             if s.kind == "fragment_spread" and s.name.value in frags:
                 fd = frags[s.name.value]
-                if fd.type_condition.name.value == static_t.name and not has_inline(fd, frags) and not s.directives:
+                if fd.type_condition.name.value == tname and not has_inline(fd, frags) and not s.directives:
                     names.append(s.name.value)
                     continue
             pure = False
-        if is_object_type(static_t) or pure:
+        if is_object_type(static_t) or (pure and tname == static_t.name):
             out += names
     return out
 
@@ -77,7 +83,8 @@ def pascal(n):
 def evaluate(case):
     import pydantic
     from mc.opcheck import find_method, get_at
-    schema = corpus.schema_k()
+    k2 = case.get("schema") == "K2"
+    schema = corpus.schema_k2() if k2 else corpus.schema_k()
     out = {"status": "ok", "problems": [], "demands": 0, "responses": 0, "mixin_checks": 0}
     P = out["problems"]
     doc_text = case["doc_text"]
@@ -87,7 +94,7 @@ def evaluate(case):
         if files:
             options["files_to_include"] = [f"{d}/{f}" for f in files]
         try:
-            pkg, pdir, _ = genpkg.generate(d, corpus.SCHEMA_K, doc_text, options, files=files)
+            pkg, pdir, _ = genpkg.generate(d, corpus.SCHEMA_K2 if k2 else corpus.SCHEMA_K, doc_text, options, files=files)
         except genpkg.GenError as e:
             out.update(status="gen_error", error=str(e), error_type=e.exc_type)
             return out
@@ -132,7 +139,7 @@ def evaluate(case):
                         ctx = {"operation": opname, "path": list(path), "fragment": fname, "data": res.data}
                         cls = getattr(fmod, pascal(fname), None) if fmod else None
                         if cls is None:
-                            P.append(("fragment_class_missing" + (":union" if static_t.name == "U" else ""), f"{fname} is spread on its own type at {path} of {opname} but the fragments module has no class {pascal(fname)}", ctx))
+                            P.append(("fragment_class_missing" + (":union" if is_union_type(static_t) else ""), f"{fname} is spread on its own type at {path} of {opname} but the fragments module has no class {pascal(fname)}", ctx))
                             continue
                         obj = get_at(r[1], path)
                         if obj is None:
@@ -248,6 +255,9 @@ def build_cases(tier):
             for sub_ops in itertools.combinations(ops, r):
                 for order in ((frs,) + sub_ops, sub_ops + (frs,)):
                     cases.append(dict(family="shared", doc_text="\n".join(order) + "\n", tags={f"shared:{label}", f"nops:{len(sub_ops)}"}))
+    # typed spread matrix over the second schema family (interfaces implementing interfaces, unions of implementers)
+    for o in corpus.k2_matrix():
+        cases.append(dict(family="k2matrix", schema="K2", doc_text=o.doc_text, tags=set(t for t in o.tags if t != "family:K2")))
     # mixins
     mx = [
         ("field", 'query M { user @mixin(from: ".mixins", import: "MixinA") { id } }', [("MixinA", ["MUser"])]),
@@ -261,6 +271,25 @@ def build_cases(tier):
         ("two_ops", 'query M { user @mixin(from: ".mixins", import: "MixinA") { id } }\nquery N { user { id } }', [("MixinA", ["MUser"])]),
         ("fragment_def_used_twice", 'query M { user { ...F } userReq { ...F name } }\nfragment F on User @mixin(from: ".mixins", import: "MixinA") { id }', [("MixinA", ["F"])]),
     ]
+    # every sequence (<=3) of directives containing at least one @mixin, on a field, a nested field, an abstract field and a fragment definition
+    D = {"mA": '@mixin(from: ".mixins", import: "MixinA")', "mB": '@mixin(from: ".mixins", import: "MixinB")', "inc": "@include(if: true)", "skp": "@skip(if: false)", "tag": '@tag(name: "x")'}
+    sites = {
+        "field": ("query M {{ user {d} {{ id }} }}", ["MUser"], ("mA", "mB", "inc", "skp", "tag")),
+        "nested_field": ("query M {{ user {{ id friend {d} {{ id }} }} }}", ["MUserFriend"], ("mA", "mB", "inc", "skp", "tag")),
+        "abstract_field": ("query M {{ node {d} {{ id ... on User {{ name }} }} }}", ["MNodeNode", "MNodeUser"], ("mA", "mB", "inc", "tag")),
+        "fragment_def": ("query M {{ user {{ ...F }} }}\nfragment F on User {d} {{ id }}", ["F"], ("mA", "mB", "tag")),
+    }
+    for site, (tmpl, classes, allowed) in sites.items():
+        for n in (1, 2, 3):
+            for seq in itertools.permutations(allowed, n):
+                if not any(x in ("mA", "mB") for x in seq):
+                    continue
+                if tier == "quick" and n == 3 and site not in ("field", "fragment_def"):
+                    continue
+                q = tmpl.format(d=" ".join(D[x] for x in seq))
+                exp = [(imp, classes) for key, imp in (("mA", "MixinA"), ("mB", "MixinB")) if key in seq]
+                absent = [imp for key, imp in (("mA", "MixinA"), ("mB", "MixinB")) if key not in seq]
+                mx.append((f"seq:{site}:{'>'.join(seq)}", q, exp + [(imp, []) for imp in absent]))
     for label, q, exp in mx:
         cases.append(dict(family="mixin", doc_text=q + "\n", files={"mixins.py": MIXINS_PY}, mixins=[{"import": i, "classes": cl} for i, cl in exp], tags={f"mixin:{label}"}))
     return cases
@@ -283,12 +312,15 @@ def main(tier):
         def F():
             nonlocal feats
             if feats is None:
-                feats = set(case["tags"]) | features.op_features(K, case["doc_text"])
+                feats = set(case["tags"]) | features.op_features(corpus.schema_k2() if case.get("schema") == "K2" else K, case["doc_text"])
             return feats
         if rep.triage:
             rep.seen(F())
         if st != "ok":
             rep.violation("harness_" + st, F(), str(r)[:500], desc)
+            continue
+        if r["status"] == "gen_error" and case["family"] == "k2matrix":
+            stats["generation_failures"] += 1   # crashes of the generator on this family are C01's findings (gen_error:AttributeError|...)
             continue
         if r["status"] != "ok":
             stats["generation_failures"] += 1
